@@ -304,7 +304,7 @@ Proof.
   destruct (_ && _); try reflexivity.
   destruct (hash_secs _ _ _) as [hs| |]; cbn [bind fst snd]; try reflexivity.
   destruct (read_trailer _ _ _ _) as [tr| |]; cbn [bind]; try reflexivity.
-  change pe_certstart_padded with true. cbv iota. f_equal. f_equal. rewrite <- !app_assoc. reflexivity.
+  change pe_certstart_padded with true. change pe_hashes_padding with true. cbv iota. f_equal. f_equal. rewrite <- !app_assoc. reflexivity.
 Qed.
 
 Definition nonneg_sizes (secs : list (Z * Z)) : Prop := Forall (fun s => 0 <= snd s) secs.
